@@ -143,6 +143,7 @@ class SparselyBin(Factory, Container):
             self.contentType = value.name
         else:
             self.contentType = "Count"
+        self.contentName = None
         self.bins = {}
         self.nanflow = nanflow.copy()
         self.origin = float(origin)
@@ -160,7 +161,11 @@ class SparselyBin(Factory, Container):
 
     @inheritdoc(Container)
     def zero(self):
-        return SparselyBin(self.binWidth, self.quantity, self.value, self.nanflow.zero(), self.origin)
+        out = SparselyBin(self.binWidth, self.quantity, self.value, self.nanflow.zero(), self.origin)
+        # without a template (reloaded from JSON) the content type and name are only known from these fields
+        out.contentType = self.contentType
+        out.contentName = self.contentName
+        return out
 
     @inheritdoc(Container)
     def __add__(self, other):
@@ -182,6 +187,8 @@ class SparselyBin(Factory, Container):
                 self.origin,
             )
             out.entries = self.entries + other.entries
+            out.contentType = self.contentType
+            out.contentName = self.contentName
             out.bins = {}
             for i, v in self.bins.items():
                 out.bins[i] = v + other.bins[i] if i in other.bins else v.copy()
@@ -462,7 +469,7 @@ class SparselyBin(Factory, Container):
             else:
                 binsName = None
         else:
-            binsName = None
+            binsName = self.contentName
 
         if len(self.bins) > 0:
             bins_type = list(self.bins.values())[0].name
@@ -554,6 +561,7 @@ class SparselyBin(Factory, Container):
                 raise JsonFormatException(json, "SparselyBin.origin")
 
             out = SparselyBin.ed(binWidth, entries, json["bins:type"], bins, nanflow, origin)
+            out.contentName = binsName
             out.quantity.name = nameFromParent if name is None else name
             return out.specialize()
 
